@@ -1,17 +1,21 @@
-\* third core with edge assemblies (Sym 3, 2, 2, 1): every accounting clause one edit deep, edits at all fifteen nodes; emitted for replay
+\* thorough: every accounting clause as its own invariant, one edit deep with rich parameters, third core with edge assemblies
 CONSTANTS NLeaf = 6  NBlk = 4  NAsm = 4  MaxLevel = 2  LMax = 20000  VMax = 100
 CONSTANTS Parent <- TEdgeParent  Area <- TEdgeArea  Height <- TEdgeHeight  Sym <- TEdgeSym  W <- Wt  N0 <- TEdgeN0  H0 <- TEdgeH0
-CONSTANTS Targets <- TEdgeTargetsAll  Vals <- ValsQ  Facs <- FacsQ  Masses <- MassesQ  Maps <- MapsQ  FracMaps <- FracMapsQ  AddMaps <- AddMapsQ  SetMaps <- SetMapsQ
+CONSTANTS Targets <- TEdgeTargetsAll  Vals <- ValsT  Facs <- FacsT  Masses <- MassesT  Maps <- MapsT  FracMaps <- FracMapsT  AddMaps <- AddMapsT  SetMaps <- SetMapsT
 CONSTANTS HDom <- HDom123  HTargets <- TEdgeHAll  HVals <- HDom123
 CONSTANTS LeafVolCut <- LeafVolCutEnv  ScaleRaises <- ScaleRaisesEnv
 INIT InitB
 NEXT NextB
 CONSTRAINT Bound
 VIEW View
-ACTION_CONSTRAINT Emit
-INVARIANT EmitState
 INVARIANT TypeOK
-INVARIANT Accounting
+INVARIANT VolumeAdditive
+INVARIANT MassIsDensityTimesVolume
+INVARIANT MassAdditive
+INVARIANT AtomsAgree
+INVARIANT MassesAgreeWithMass
+INVARIANT MassFracsSumToOne
+INVARIANT ConversionsInverse
 PROPERTY ReadBack
 PROPERTY Locality
 POSTCONDITION CountReport
